@@ -153,3 +153,39 @@ def check(cx):
                        "the update arm never builds an index entry from the new row image: it edits value slots of "
                        "an entry whose indexed columns are keys, so after UPDATE the index still finds the row under "
                        "the old key, the new key is unknown and UNIQUE keeps blocking the old value (D23)")
+
+    # ---- C06.4 join-reordering / pushdown rules are gated to inner and cross joins ---------------------------
+    r4 = cx.rule("C06.4", "TAB: the transformation rules that reorder joins or push filters through them "
+                 "(JoinCommutativityRule, JoinAssociativityRule, FilterPushdownJoinRule) compare the join type only with "
+                 "Inner/Cross and each has such a gate: commuting, re-associating or pushing a WHERE predicate below/into an "
+                 "outer join changes which rows are NULL-extended", floor=3)
+    JT = "sql::parser::ast::JoinType"
+    for rule_name in ("JoinCommutativityRule", "JoinAssociativityRule", "FilterPushdownJoinRule"):
+        fs = [g for g in p.fns.values() if ("<sql::planner::rules::%s as " % rule_name) in (g.root or g.id)]
+        if not fs:
+            cx.bad(r4, rule_name + ":anchor-missing", "", "optimizer rule %s not found" % rule_name)
+            continue
+        gate = set()
+        for g in fs:
+            proms = g.rec.get("promoted") or []
+            for c in g.calls():
+                if c.defn in ("std::cmp::PartialEq::eq", "std::cmp::PartialEq::ne") and any(JT in x for x in c.gargs):
+                    for o in c.args:
+                        l = op_local(o)
+                        if l is None:
+                            continue
+                        cl = g.dep_closure(l) | {l}
+                        for b in g.blocks:
+                            for st in b["stmts"]:
+                                if st["dst"][0] in cl:
+                                    for oo in (st["rv"].get("o") or []) if isinstance(st["rv"].get("o"), list) else []:
+                                        k = oo.get("k") or {}
+                                        pi = k.get("promoted")
+                                        if isinstance(pi, int) and not isinstance(pi, bool) and pi < len(proms) and proms[pi] and proms[pi].get("adt") == JT:
+                                            gate.add(proms[pi]["variant"])
+            # `matches!(jt, JoinType::Inner | JoinType::Cross)` compiles to a discriminant switch
+            for bi, adt, m, oth, src in enum_switches(p, g):
+                if adt == JT:
+                    gate |= set(m)
+        cx.verdict(bool(gate) and gate <= {"Inner", "Cross"}, r4, rule_name, fs[0].where(), "gated to %s" % sorted(gate),
+                   "%s applies to join types %s: rewriting an outer join this way changes the answer" % (rule_name, sorted(gate) or "(no gate at all)"))
